@@ -169,6 +169,12 @@ def plan(prop, tier):
         muts = muts or IRK3
         return [TableJob(name + "_bnd", muts + obs, obs, base="<<1>>", maxcount=2 if q else 3, maxnodes=4 if q else 5,
                          targets=targets(["u8", "u64", "u128", "Ipv4Net"] if q else ALL_TYPES, ("map",), ("stretch:2",)), timeout=1500)]
+    CH10 = "{<<>>, <<0>>, <<0,0>>, <<0,0,0>>, <<0,0,0,0>>, <<0,0,0,1>>, <<0,0,1>>, <<0,0,1,0>>, <<0,1>>, <<1>>}"
+    def chain(name, emit, acts=None, mc=None, mn=None):
+        """a chain four levels deep with its siblings (10 keys), complete mutator alphabet: nesting deeper than U3"""
+        acts = acts or (MUT + [e for e in emit if e not in MUT])
+        return [TableJob(name + "_chain", acts, emit, keylen=-1, keys=CH10, maxcount=mc or (3 if q else 5), maxnodes=mn or (6 if q else 8),
+                         targets=targets(["u32", "Ipv6Net"] if q else QUICK_TYPES + ["u64"]), timeout=2400)]
     def deep(name, obs, mc=3, mn=6, tg=None):
         """thorough only: all shapes of the 3-bit universe with value-less leftovers (capped), and random deep
         walks in the 4-bit universe with the complete fan-out of every visited state"""
@@ -187,25 +193,26 @@ def plan(prop, tier):
                 *([] if q else [TableJob("c01_entry2", ["Insert", "Remove", "RemoveKeepTree", "Entry"], ["Entry"],
                                          vals="{1,2}", maxcount=2, entrydepth=2, targets=targets(QUICK_TYPES), timeout=2400)]),
                 u3c("c01_u3c", ["Insert", "Remove", "Retain", "Get"], ["Get"])] + \
-               bnd("c01", EXACT + ["Insert", "Remove", "RemoveKeepTree", "RemoveChildren", "Retain"], muts=[])
+               bnd("c01", EXACT + ["Insert", "Remove", "RemoveKeepTree", "RemoveChildren", "Retain"], muts=[]) + \
+               chain("c01", MUT + ["Get"])
     if prop == "C02":
-        return [TableJob("c02_u2", MUT + ["Lpm"], ["Lpm"], targets=both)] + bnd("c02", ["Lpm"]) + deep("c02", ["Lpm"], 4, 7)
+        return [TableJob("c02_u2", MUT + ["Lpm"], ["Lpm"], targets=both)] + bnd("c02", ["Lpm"]) + chain("c02", ["Lpm"]) + deep("c02", ["Lpm"], 4, 7)
     if prop == "C03":
-        return [TableJob("c03_u2", MUT + ["Iter"], ["Iter"], targets=both)] + bnd("c03", ["Iter"]) + deep("c03", ["Iter"], 4, 7)
+        return [TableJob("c03_u2", MUT + ["Iter"], ["Iter"], targets=both)] + bnd("c03", ["Iter"]) + chain("c03", ["Iter"]) + deep("c03", ["Iter"], 4, 7)
     if prop == "C04":
         hm = ["Entry", "GetMut", "ViewSet", "ViewRemove"]
         return [TableJob("c04_u2", MUT + ["Len"], MUT + ["Len"], viewacct=not q, targets=both),
                 TableJob("c04_handles", core + hm + ["Len"], hm + core + ["Len"], vals="{1,2}" if not q else "{1}",
                          maxcount=2 if q else 3, entrydepth=1, targets=targets(types), timeout=2400)]
     if prop == "C09":
-        return [TableJob("c09_u2", MUT + ["Spm", "Cover", "Lpm"], ["Spm", "Cover"], targets=both)] + bnd("c09", ["Spm", "Cover"]) + deep("c09", ["Spm", "Cover"], 4, 7)
+        return [TableJob("c09_u2", MUT + ["Spm", "Cover", "Lpm"], ["Spm", "Cover"], targets=both)] + bnd("c09", ["Spm", "Cover"]) + chain("c09", ["Spm", "Cover"]) + deep("c09", ["Spm", "Cover"], 4, 7)
     if prop == "C10":
         return [TableJob("c10_u2", MUT + ["Children"], ["Children", "RemoveChildren", "Retain"], targets=both),
-                u3c("c10_u3c", ["Retain", "Children"], ["Children"])] + bnd("c10", ["Children", "RemoveChildren"]) + deep("c10", ["Children", "Retain", "RemoveChildren"])
+                u3c("c10_u3c", ["Retain", "Children"], ["Children"])] + bnd("c10", ["Children", "RemoveChildren"]) + chain("c10", ["Children", "RemoveChildren", "Retain"]) + deep("c10", ["Children", "Retain", "RemoveChildren"])
     if prop == "C11":
-        return [TableJob("c11_u2", core + ["ViewDesc"], ["ViewDesc"], targets=both)] + bnd("c11", ["ViewDesc"]) + deep("c11", ["ViewDesc"])
+        return [TableJob("c11_u2", core + ["ViewDesc"], ["ViewDesc"], targets=both)] + bnd("c11", ["ViewDesc"]) + chain("c11", ["ViewDesc"]) + deep("c11", ["ViewDesc"])
     if prop == "C12":
-        return [TableJob("c12_u2", core + ["Find"], ["Find"], targets=both)] + bnd("c12", ["Find"]) + deep("c12", ["Find"], 2, 5)[:1]
+        return [TableJob("c12_u2", core + ["Find"], ["Find"], targets=both)] + bnd("c12", ["Find"]) + chain("c12", ["Find"], mc=2 if q else 3, mn=5 if q else 6) + deep("c12", ["Find"], 2, 5)[:1]
     if prop == "C13":
         w = ["GetMut", "LpmMut", "IterMut", "ValuesMut", "ChildrenMut", "ViewValueMut", "ViewIterMut"]
         IRx, IRKx = ["Insert", "Remove"], ["Insert", "Remove", "RemoveKeepTree"]
@@ -293,11 +300,11 @@ def plan(prop, tier):
     if prop == "C15":
         return [TableJob("c15_u2", MUT, MUT, targets=both),
                 u3c("c15_u3c", ["Insert", "Remove", "Retain"]),
-                u3k("c15_u3k", ["Insert", "Remove", "RemoveKeepTree", "RemoveChildren"], ["RemoveChildren"])]
+                u3k("c15_u3k", ["Insert", "Remove", "RemoveKeepTree", "RemoveChildren"], ["RemoveChildren"])] + chain("c15", MUT)
     if prop == "C16":
         return [TableJob("c16_u2", MUT, MUT, viewacct=True, targets=both),
                 u3c("c16_u3c", ["Insert", "Remove", "Retain"]),
-                u3k("c16_u3k", ["Insert", "Remove", "RemoveKeepTree", "RemoveChildren"], ["RemoveChildren"])]
+                u3k("c16_u3k", ["Insert", "Remove", "RemoveKeepTree", "RemoveChildren"], ["RemoveChildren"])] + chain("c16", MUT)
     raise ToolError(f"no plan for {prop}")
 
 
